@@ -9,6 +9,8 @@ CONSTANTS Depth,      \* operations per behaviour
           Script,     \* <<>> or a sequence of step kinds ("grow" = accepting submission, "submit", "clean",
                       \* "save", "load", "mark", "unmark", "subscribe", "any"): step i must be of kind Script[i].
                       \* With BFS this enumerates a scenario family exhaustively (all trees, all orders).
+          Shape,      \* <<>> or the pool's parent function as a sequence: only that tree shape is generated (every
+                      \* work assignment, every order) - used for shapes that random trees rarely take, like a fork of a fork
           Lean,       \* TRUE: at most one orphan and few duplicate candidates per state, so that random
                       \* simulation spends its steps on tree-shaping submissions
           Ties        \* TRUE: states with several tips of maximal work are generated too.  C01 asks for *a* tip of
@@ -25,7 +27,16 @@ Exp == [verdict |-> last.verdict, tip |-> tip, chain |-> ChainOf(tip), delta |->
 
 Step(opname, b) == hist' = Append(hist, [op |-> opname, b |-> b, exp |-> Exp'])
 
-GInit == Init /\ hist = <<>>
+\* Init of HeaderChain with the tree shape fixed when Shape is given (the nondeterministic choice of the parent
+\* function has N! values: it is not enumerated and filtered)
+GInit == /\ IF Shape = <<>> THEN parent \in {f \in [Blocks -> AllB] : \A b \in Blocks : f[b] < b}
+                           ELSE parent = [b \in Blocks |-> Shape[b]]
+         /\ work \in [Blocks -> Works]
+         /\ acc = {0} /\ ever = {0} /\ tip = 0 /\ invalid = {} /\ subs = <<>>
+         /\ floorB = 0 /\ unsure = {}
+         /\ disk = [has |-> FALSE]
+         /\ last = [op |-> "init", b |-> 0, verdict |-> "ok", delta |-> <<>>]
+         /\ hist = <<>>
 Ended == hist # <<>> /\ hist[Len(hist)].op = "reload"
 
 \* Submissions whose outcome the properties dictate (see DESIGN.md 2.2)
